@@ -26,10 +26,10 @@ import (
 	"golang.org/x/tools/go/ssa/ssautil"
 )
 
-const (
-	verifDir = "/verif"
-	repoMod  = "github.com/circlefin/noble-cctp"
-)
+const repoMod = "github.com/circlefin/noble-cctp"
+
+// verifDir holds harness/, spec/ and known_findings.txt (VERIF_DIR points development runs at a copy).
+var verifDir = envStr("VERIF_DIR", "/verif")
 
 // repoDir is the tree under analysis (/repo; VERIF_REPO points development runs at a scratch
 // worktree), outBase holds scratch output and evidenceDir the evidence files.
